@@ -147,6 +147,18 @@ def run(tier):
         rsc = retry_checks.regress()[:10] + retry_checks.sampled("c10", rng, 40 if tier == "quick" else 600, comps, ["w_pub", "w_sub", "w_mixed"],
                                                               connacks=retry_checks.KEPT + retry_checks.LOST + [[]] * 3,
                                                               optgen=lambda r_: {"pingMs": r_.choice([0, 0, 10]), "connTimeoutMs": 300, "hammer": r_.random() < 0.6})
+        # several reconnects with requests in flight while other goroutines keep calling Ping / Stats / Client / Handle
+        for j in range(12 if tier == "quick" else 60):
+            wl = [retry_checks.PUB(1), retry_checks.PUB(2), retry_checks.SUB(("x", 1))][: 2 + j % 2]
+            fl = [{"k": 2, "o": "cutAfter"}, {"k": 4, "o": rng.choice(["cutBefore", "cutAfter"])}, {"k": 7, "o": "cutAfter"}][: 2 + j % 2]
+            rsc.append(rf.scenario("c10h-%d" % j, wl, ["conn"] * len(wl), fl, connacks=retry_checks.LOST[0] if j % 3 == 0 else [],
+                                   opts={"hammer": True, "hammerSleepUs": 10 + 20 * (j % 3), "connTimeoutMs": 300}))
+        # ... and the reconnect handshake held inside a ConnectOption (after SetClient, before the new client is initialised)
+        # for a few milliseconds while those goroutines keep calling
+        for j in range(6 if tier == "quick" else 30):
+            sc = rf.scenario("c10g-%d" % j, [retry_checks.PUB(1 + j % 2)], ["conn"], [{"k": 2, "o": "cutAfter"}], opts={"hammer": True, "hammerSleepUs": 20, "connTimeoutMs": 300})
+            sc["reqs"] += [{"k": "sleep", "ms": 3, "at": "connopt:3"}]
+            rsc.append(sc)
         # application-side concurrency on the retrying client: Handle / Ping / sample (Client, Err, Done) while requests run
         for s in rsc:
             s["reqs"] = s["reqs"] + [{"k": "handle", "h": 1, "at": "conn"}, {"k": "sample", "at": "conn"}]
